@@ -283,7 +283,13 @@ struct RefGuard {
   RefGuard() : w(pool().worker_id) { if (w >= 0) shared()->in_ref[w] = 1; }
   ~RefGuard() { if (w >= 0) shared()->in_ref[w] = 0; }
 };
-inline void limit_memory(size_t bytes) { struct rlimit r; r.rlim_cur = r.rlim_max = bytes; setrlimit(RLIMIT_AS, &r); }
+inline void limit_memory(size_t bytes) {
+#if defined(__SANITIZE_ADDRESS__)
+  (void)bytes;     // AddressSanitizer reserves terabytes of address space: no RLIMIT_AS
+#else
+  struct rlimit r; r.rlim_cur = r.rlim_max = bytes; setrlimit(RLIMIT_AS, &r);
+#endif
+}
 
 inline const char* signame(int sig) {
   switch (sig) { case SIGABRT: return "SIGABRT"; case SIGSEGV: return "SIGSEGV"; case SIGFPE: return "SIGFPE";
